@@ -549,8 +549,15 @@ def run_scenario(scn):
     """scn: {"role","state","seed","inputs":[spec…],"post":"silent"|"continue","qlog":bool,
              "interleave": n, "post_api": bool, "stop_on_close": bool}
     returns Result"""
+    co = dict(scn.get("client_options") or {})
+    so = dict(scn.get("server_options") or {})
+    if scn.get("mds"):                       # configuration.max_datagram_size of both endpoints
+        co["max_datagram_size"] = scn["mds"]
+        so["max_datagram_size"] = scn["mds"]
+    if scn.get("client_token_len") is not None:   # a token a previous connection got in NEW_TOKEN
+        co["token"] = bytes([0x54]) * scn["client_token_len"]
     sim, victim, _ = build_state(scn["role"], scn["state"], scn["seed"], quic_logger=scn.get("qlog", False),
-                                 client_options=scn.get("client_options"), server_options=scn.get("server_options"))
+                                 client_options=co, server_options=so)
     try:
         return run_inputs(sim, victim, scn)
     finally:
